@@ -110,7 +110,7 @@ def convertValue (zones : Bool) : Value → PyVal
   | .int i => .int i
   | .float r => .float r
   | .str s => .str s
-  | .holo _ => .obj "HolographicValue".toList        -- `else: return value`
+  | .holo raw => .str raw                            -- `return value.raw_pattern` (both copies, fix 45b8e9f)
   | .pydict ps => .dict (rawPairs ps)                -- `else: return value` (a dict is not an InlineMap)
 def convertItems (zones : Bool) : List Value → List PyVal
   | [] => []
